@@ -733,7 +733,8 @@ func specUTF8Wanted(r *Reader, h ws.Header, st ws.State, op ws.OpCode) bool {
 //@   ensures  [data]  hdrAccepted(r, r.Source, old(inPos(r.Source)), old(r.State)) && !(old(r.State)&ws.StateFragmented != 0 && hdr.OpCode >= 8) ==> err == nil && r.raw.R == r.Source && r.raw.N == hdr.Length && inPos(r.Source) == old(inPos(r.Source))+ws.VSpecNeed(inByte(r.Source, old(inPos(r.Source))+1)) && (r.State&ws.StateFragmented != 0) == !hdr.Fin && r.State&^ws.StateFragmented == old(r.State)&^ws.StateFragmented
 //@   ensures  [opcode] hdrAccepted(r, r.Source, old(inPos(r.Source)), old(r.State)) && !(old(r.State)&ws.StateFragmented != 0 && hdr.OpCode >= 8) ==> r.opCode == ws.OpCode(iteInt(old(r.State)&ws.StateFragmented != 0, int(old(r.opCode)), int(hdr.OpCode)))
 //@   ensures  [chain] hdrAccepted(r, r.Source, old(inPos(r.Source)), old(r.State)) && !(old(r.State)&ws.StateFragmented != 0 && hdr.OpCode >= 8) ==> (hdr.Masked ==> r.cr != nil && r.cr.r == io.Reader(&r.raw) && r.cr.mask == hdr.Mask && r.cr.pos == 0) && (specUTF8Wanted(r, hdr, old(r.State), r.opCode) ==> r.frame == io.Reader(&r.utf8) && r.utf8.state == old(r.utf8.state) && r.utf8.Source == iteReader(hdr.Masked, io.Reader(r.cr), io.Reader(&r.raw))) && (!specUTF8Wanted(r, hdr, old(r.State), r.opCode) ==> r.frame == iteReader(hdr.Masked, io.Reader(r.cr), io.Reader(&r.raw)) && r.utf8.state == old(r.utf8.state))
-//@   ensures  [ctl]   hdrAccepted(r, r.Source, old(inPos(r.Source)), old(r.State)) && old(r.State)&ws.StateFragmented != 0 && hdr.OpCode >= 8 ==> r.State == old(r.State) && r.opCode == old(r.opCode) && r.utf8.state == old(r.utf8.state) && r.frame == old(r.frame) && (err == nil ==> r.raw.N == 0)
+//@   ensures  [ctl]   hdrAccepted(r, r.Source, old(inPos(r.Source)), old(r.State)) && old(r.State)&ws.StateFragmented != 0 && hdr.OpCode >= 8 ==> r.State == old(r.State) && r.opCode == old(r.opCode) && r.utf8.state == old(r.utf8.state) && r.frame == old(r.frame) && (err == nil ==> r.raw.N == 0) && r.raw.R == r.Source
+//@   ensures  [mono]  inPos(r.Source) >= old(inPos(r.Source))
 //@   ensures  [inv]   invReader(r) && streamOK(r.Source) && r.Source == old(r.Source) && r.CheckUTF8 == old(r.CheckUTF8)
 //@   assigns *r, *r.cr, stream(r.Source)
 //@   loop 1 invariant [hdr] hdr == ws.VSpecDecode(r.Source, old(inPos(r.Source))) && err == nil
@@ -776,3 +777,14 @@ func iteReader(c bool, a, b io.Reader) io.Reader {
 //@   ensures  [invalid] old(r.frame) != nil && err == ErrInvalidUTF8 && inErr(r.Source) != ErrInvalidUTF8 ==> idleReader(r) || r.utf8.state == 12
 //@   ensures  [inv]   invReader(r) && streamOK(r.Source)
 //@   ensures  [same]  r.Source == old(r.Source) && r.CheckUTF8 == old(r.CheckUTF8)
+
+// Discard skips the rest of the current message, fragment by fragment, and leaves the reader idle.
+//@ func Reader.Discard
+//@   props C04 C16 C18
+//@   call Reader.fragmented inline
+//@   requires [inv]  invReader(r) && streamOK(r.Source) && len(r.Extensions) == 0 && r.OnContinuation == nil && r.OnIntermediate == nil && r.frame != nil
+//@   ensures  [idle] idleReader(r) && r.Source == old(r.Source)
+//@   ensures  [whole] err == nil ==> r.State&ws.StateFragmented == 0
+//@   ensures  [cut]  err == nil ==> inEnd(r.Source)-old(inPos(r.Source)) >= int(old(r.raw.N))
+//@   loop 1 invariant [inv] invReader(r) && streamOK(r.Source) && r.raw.R == r.Source && r.Source == old(r.Source) && len(r.Extensions) == 0 && r.OnContinuation == nil && r.OnIntermediate == nil && err == nil
+//@   loop 1 invariant [pos] inPos(r.Source) >= old(inPos(r.Source))
